@@ -67,7 +67,7 @@ class HeapMixin:
                 if attr in rec.fields:
                     self.fire("field_read", v, attr)
                     return rec.fields[attr]
-                ci = self.repo.find_class(rec.cls)
+                ci = self.repo.find_class(rec.cls) or self.repo.find_class(getattr(self, "class_alias", {}).get(rec.cls, ""))
                 if ci is not None:
                     p = self.repo.lookup_property(ci, attr)
                     if p is not None:
